@@ -314,7 +314,7 @@ def argument(ctx, cfg, fs):
                where=conv[0].where(), cfg=cfg)
         rets = ev.return_blocks()
         # every Ok return is dominated by the conversion
-        oks = [i for i, k, st in ev.stmts() if st['k'] == 'assign' and st['lhs'] == [0, []] and st['rv']['k'] == 'agg' and st['rv'].get('variant') == 'Ok']
+        oks = value_sites(ev, 'Ok')
         ok3 = bool(oks) and all(ev.dominates(conv[0].bb, o) for o in oks)
         ctx.ob('J.single-conversion', 'ParseArgument::eval:ok-needs-conversion', ok3, 'every Ok of ParseArgument::eval is dominated by parse_os_str', where=ev.where(), cfg=cfg)
 
